@@ -489,6 +489,40 @@ Definition relayed (k : cfg) (line : str) : str := 58 :: c_prefix k ++ 32 :: lin
 Definition line_fits (k : cfg) (line : str) : bool := blen (relayed k line) <=? gen.T12.LINE_MAX.
 
 (* ------------------------------------------------------------------ *)
+(* How irc.nick and irc.prefix (the hostmask reply() measures) follow the server: the preamble of
+   Irc.feedMsg learns the prefix from any message of the bot itself, Irc.doNick follows the bot's own
+   NICK.  Messages are given by the three parts of their prefix (user and host contain no '!' / '@',
+   so splitHostmask undoes joinHostmask). *)
+Record ident := ID { i_nick : str; i_prefix : str }.
+Definition hostmask (n u h : str) : str := n ++ [33] ++ u ++ [64] ++ h.
+Inductive sev : Type :=
+| EvMsg (n u h : str)                (* any message with prefix n!u@h that is not a NICK *)
+| EvNick (n u h new : str).          (* :n!u@h NICK new *)
+
+(* if msg.nick == self.nick and self.prefix != msg.prefix: self.prefix = msg.prefix *)
+Definition feed_fix (st : ident) (n u h : str) : ident :=
+  if seq_eqb n (i_nick st) && negb (seq_eqb (i_prefix st) (hostmask n u h))
+  then ID (i_nick st) (hostmask n u h) else st.
+
+Definition ident_step (st : ident) (ev : sev) : ident :=
+  match ev with
+  | EvMsg n u h => feed_fix st n u h
+  | EvNick n u h new =>
+      let st1 := feed_fix st n u h in
+      if seq_eqb n (i_nick st1) then
+        (* newNick = msg.args[0]; self.nick = newNick; (nick, user, domain) = splitHostmask(msg.prefix);
+           self.prefix = joinHostmask(self.nick, user, domain) *)
+        let nick' := new in ID nick' (hostmask nick' u h)
+      else st1
+  end.
+
+Definition ident_run (st : ident) (evs : list sev) : ident := fold_left ident_step evs st.
+
+Definition gEv (v : value) : sev :=
+  if gB (nth_v 0 v) then EvNick (gS (nth_v 1 v)) (gS (nth_v 2 v)) (gS (nth_v 3 v)) (gS (nth_v 4 v))
+  else EvMsg (gS (nth_v 1 v)) (gS (nth_v 2 v)) (gS (nth_v 3 v)).
+
+(* ------------------------------------------------------------------ *)
 (* wire *)
 Definition vCtx (c : fctx) : value :=
   L [vO vN (fg c); vO vN (bg c); vB (fbold c); vB (frev c); vB (ful c)].
@@ -506,6 +540,7 @@ Definition gCfg (v : value) : cfg :=
    5 (cfg s number times) -> session transcript
    6 s                -> visible s
    7 (s length)       -> wrap with the model's own splitter
+   9 (nick prefix events) -> (irc.nick, irc.prefix) after the events ((0 n u h) message, (1 n u h new) NICK)
    8 (cfg s number ops) -> session2 transcript (ops: 0 owner's more, 1 peer's more <nick>, 2 peer's more) *)
 Definition run (v : value) : value :=
   let p := nth_v 1 v in
@@ -522,5 +557,7 @@ Definition run (v : value) : value :=
   | 8 => vR (fun t => L (map vLS t))
             (session2 (gCfg (nth_v 0 p)) (gS (nth_v 1 p)) (gN (nth_v 2 p))
                       (map (fun v => match gN v with 0 => OpOwner | 1 => OpPeerNick | _ => OpPeer end) (gL (nth_v 3 p))))
+  | 9 => let st := ident_run (ID (gS (nth_v 0 p)) (gS (nth_v 1 p))) (map gEv (gL (nth_v 2 p))) in
+         L [vS (i_nick st); vS (i_prefix st)]
   | _ => L []
   end.
